@@ -946,6 +946,7 @@ func c16_pickW(r *RNG, ops []c16_wop) string {
 }
 
 // allowDefects: whether this sequence may contain the operations of the known findings
+// (byte_slice slicing; list.map callbacks that keep their index were among them until the repair)
 func (g *c16Gen) next(allowDefects bool, curStr *string) (c16Op, bool) {
 	objs := g.w.objs
 	kind := g.kind
@@ -1048,15 +1049,11 @@ func (g *c16Gen) next(allowDefects bool, curStr *string) (c16Op, bool) {
 			}
 			return c16Op{name, []string{H(r)}}, true
 		case "lmap":
+			// every callback shape, in every sequence: the index-returning one is no known
+			// defect any more (fix: give every list.map callback its own index object)
 			cb := Pick(g.rng, []string{"val", "idxplus", "one", "idx"})
-			if cb == "idx" && !allowDefects {
-				cb = "idxplus"
-			}
 			return c16Op{name, []string{H(r), cb}}, true
 		case "lmapacc":
-			if !allowDefects {
-				return c16Op{"lcopy", []string{H(r)}}, true
-			}
 			acc, _ := pickH(c16_isList)
 			hs := g.handles(c16_isList)
 			acc = Pick(g.rng, hs)
@@ -1336,7 +1333,10 @@ type c16Case struct {
 	nontriv bool
 }
 
-var c16FindingIDs = map[string]string{"map": "C16-list-map-shared-index", "bytes": "C16-byteslice-slice-shares-bytes"}
+// oracle tag -> id of the known finding. C16-list-map-shared-index (tag `map`) was repaired
+// (fix: give every list.map callback its own index object): the oracle no longer issues the
+// tag and no case is attributed to it, so a recurrence is an unlisted VIOLATION.
+var c16FindingIDs = map[string]string{"bytes": "C16-byteslice-slice-shares-bytes"}
 
 func (c *c16Case) request() string {
 	ops := make([]string, len(c.ops))
@@ -1533,6 +1533,7 @@ func c16_runC16(e *Env) {
 	directed := []struct{ kind, objs, ops string }{
 		{"list", "L:s61,s62,s63", "lmap,0,idx"},
 		{"list", "L:s61,s62,s63;L:", "lmapacc,0,1;lget,1,i0"},
+		{"list", "L:s61,s62,s63", "lmapacc,0,0;lmap,0,idx;lmap,1,idx;lset,2,i0,i9;lget,0,i3"},
 		{"bytes", "B:01020304", "bslice,0,i1,i3;bset,1,i0,s7a;bget,0,i1"},
 		{"bytes", "B:01020304", "bslice,0,i1,i3;bset,0,i2,s7a;bget,1,i1"},
 		{"bytes", "B:01020304", "bclone,0;bset,1,i0,s7a;bset,0,i-1,s51"},
